@@ -114,6 +114,11 @@ fn build_lock_script(
     script.push_opcode(opcodes::all::OP_CSV);
     script.push_opcode(opcodes::all::OP_DROP);
 
+    // The first two bytes (witness version and push length) are dropped below
+    if pkscript.len() < 2 {
+        return Err("Invalid pkscript");
+    }
+
     let mut push_bytes = PushBytesBuf::new();
     push_bytes
         .extend_from_slice(pkscript.slice(2..).iter().as_slice())
